@@ -226,7 +226,15 @@ func (h *vf6AttH) gcConnect(ch Channel, gp func(*vf6Chan) Channel, sp StartPoint
 	ri.SetOutput(out)
 	ri.SetChannel(gp(proxy))
 	out.incr = func() usync.WaitChannel { return ri.StateNotify(SyncStateFullSynced) }
+	// rdbParallel = 1 in this session (non-default): ONE slot of the process-wide snapshot limiter - a slot that a
+	// run() does not give back makes the next run() wait for ever in fetchInput, so it is checked after every run
+	lim0 := len(config.GetSyncerConfig().Input.RdbLimiter())
+	if lim0 != 0 {
+		h.s.Count("global_rdb_limiter_slot_lost_run_skipped")
+		return &vf6GcObs{runErr: fmt.Errorf("not run: the snapshot limiter's only slot is lost"), proxy: proxy, out: out, missed: true}
+	}
 	runErr := ri.run()
+	h.limiterCheck(lim0, fmt.Sprintf("stored %s:%d source master=%d", sp.RunId, sp.Offset, src.master))
 	src.mu.Lock()
 	ps := append([]string(nil), src.psync...)
 	reply := src.reply
@@ -467,6 +475,187 @@ wait:
 	}
 }
 
+
+// ---------------------------------------------------------------- degenerate but legal inputs, FORCED (dimension audit)
+
+// vf6Deg: one forced connection (+ a follow-up) on a cache / stored position / source at the edge of the input space,
+// on both backends, verifyCrc on and off on disk. Judged by the monitors of gcJudge / gcReadBack; a forced case in which
+// nothing is delivered although no wait was missed is `run-aborted` (every case has a legal answer).
+type vf6Deg struct {
+	name    string
+	hasRdb  bool
+	left    int64
+	size    int64
+	hasAof  bool
+	aofL    int64
+	aofR    int64
+	spId    string // "id" | "?" | "unknown"
+	spOff   int64
+	master  int64
+	snapLen int64
+	k       int64
+}
+
+func vf6DegCases() []vf6Deg {
+	return []vf6Deg{
+		{name: "cached-snapshot-of-1-byte", hasRdb: true, left: 50, size: 1, hasAof: true, aofL: 50, aofR: 90, spId: "?", spOff: -1, master: 90, snapLen: 1, k: 12},
+		{name: "fullresync-snapshot-of-1-byte", spId: "?", spOff: -1, master: 70, snapLen: 1, k: 9},
+		{name: "stored-offset-0-log-from-0", hasAof: true, aofL: 0, aofR: 40, spId: "id", spOff: 0, master: 40, snapLen: 7, k: 11},
+		{name: "stored-at-cache-right", hasAof: true, aofL: 100, aofR: 140, spId: "id", spOff: 140, master: 140, snapLen: 7, k: 13},
+		{name: "stored-at-cache-right-source-idle", hasAof: true, aofL: 100, aofR: 140, spId: "id", spOff: 140, master: 140, snapLen: 7, k: 0},
+		{name: "stored-one-beyond-cache-right", hasAof: true, aofL: 100, aofR: 140, spId: "id", spOff: 141, master: 160, snapLen: 7, k: 10},
+		{name: "stored-beyond-master", hasAof: true, aofL: 100, aofR: 140, spId: "id", spOff: 150, master: 145, snapLen: 7, k: 10},
+		{name: "stored-under-unknown-id", hasRdb: true, left: 100, size: 5, hasAof: true, aofL: 100, aofR: 140, spId: "unknown", spOff: 120, master: 140, snapLen: 6, k: 10},
+		{name: "snapshot-only-cache", hasRdb: true, left: 50, size: 8, spId: "?", spOff: -1, master: 80, snapLen: 8, k: 10},
+		{name: "log-only-cache-no-position", hasAof: true, aofL: 100, aofR: 140, spId: "?", spOff: -1, master: 140, snapLen: 3, k: 10},
+		{name: "empty-cache-position-inside-backlog", spId: "id", spOff: 33, master: 60, snapLen: 4, k: 10},
+		{name: "fullresync-at-offset-0-snapshot-of-1-byte", spId: "?", spOff: -1, master: 0, snapLen: 1, k: 9},
+		{name: "source-at-offset-0-position-0", spId: "id", spOff: 0, master: 0, snapLen: 2, k: 9},
+		{name: "stored-offset-0-empty-cache", spId: "id", spOff: 0, master: 25, snapLen: 4, k: 10},
+	}
+}
+
+func (h *vf6AttH) degCase(d vf6Deg, backend string, crc bool, seed uint64) {
+	s := h.sink
+	oldCrc := config.GetSyncerConfig().Channel.VerifyCrc
+	config.GetSyncerConfig().Channel.VerifyCrc = crc
+	defer func() { config.GetSyncerConfig().Channel.VerifyCrc = oldCrc }()
+	id := vf6GcId(seed)
+	w := &vf6World{id1: id, id2: vf6ZeroId, switchOff: -2, sb: 1, s1: seed%99991 + 1, s2: 2, so: 3}
+	h.nCase++
+	dir := filepath.Join(h.tmp, fmt.Sprintf("deg%d", h.nCase))
+	os.MkdirAll(dir, 0o777)
+	defer os.RemoveAll(dir)
+	var ch Channel
+	if backend == "m" {
+		ch = NewMemoryChannel(MemoryConf{InputId: "vf", MaxSize: 0, LogSize: 1 << 20})
+	} else {
+		ch = NewStoreChannel(StorerConf{InputId: "vf", Dir: dir, MaxSize: -1, LogSize: 1 << 20})
+	}
+	defer ch.Close()
+	tag := fmt.Sprintf("%s_%s_crc%v", d.name, backend, crc)
+	c := &vf6Case{backend: backend, tokId: id, hasRdb: d.hasRdb, rdbLeft: d.left, rdbSize: d.size, hasAof: d.hasAof, aofL: d.aofL, aofR: d.aofR, s1: w.s1}
+	if d.hasRdb || d.hasAof {
+		c.cRun = id
+	}
+	c.src.id1, c.src.id2, c.src.switchOff = id, vf6ZeroId, -2
+	if err := h.populate(c, ch, w); err != nil {
+		s.Count("deg_populate_failed_" + tag)
+		return
+	}
+	sp := StartPoint{RunId: id, Offset: d.spOff}
+	switch d.spId {
+	case "?":
+		sp = StartPoint{RunId: "?", Offset: -1}
+	case "unknown":
+		sp.RunId = strings.Repeat("f", 40)
+	}
+	g := &vf6GcCase{scn: "deg:" + tag, left: d.left, size: d.size, logSize: 1 << 20, n: d.aofR - d.aofL, x: d.spOff, k: d.k, seed: seed}
+	rp := map[string]interface{}{"case": "degenerate " + tag, "seed": seed}
+	src := &vf6Source{id1: id, id2: vf6ZeroId, switchOff: -2, backlog: true, first: 1, blen: d.master, master: d.master, snapLen: d.snapLen, capaId: true, k: d.k, w: w}
+	o := h.gcConnect(ch, func(p *vf6Chan) Channel { return p }, sp, src, d.master+d.k)
+	s.Count("deg_" + tag)
+	kind := "none"
+	if o.out.sent {
+		kind = o.out.kind
+		if strings.HasPrefix(o.reply, "full:") {
+			kind += "-full"
+		}
+	}
+	s.Distinct("deg|" + tag + "|" + kind)
+	s.Count("deg_outcome_" + d.name + "_" + kind)
+	if !o.out.sent && !o.missed {
+		s.Violate("run-aborted", fmt.Sprintf("degenerate but legal input %s: nothing was delivered (err=%v psync=%v reply=%s writers=%v readerErr=%v)", tag, o.runErr, o.psyncs, o.reply, o.proxy.wr, o.proxy.rdErr), rp)
+		return
+	}
+	next := h.gcJudge(o, "forced connection", sp, id, w, g, d.master, d.master+d.k, rp)
+	h.gcReadBack(ch, id, w, g, "after the forced connection", rp)
+	if next.RunId == "!" {
+		return
+	}
+	m2 := d.master + d.k
+	src2 := &vf6Source{id1: id, id2: vf6ZeroId, switchOff: -2, backlog: true, first: 1, blen: m2, master: m2, snapLen: d.snapLen, capaId: true, k: 7, w: w}
+	o2 := h.gcConnect(ch, func(p *vf6Chan) Channel { return p }, next, src2, m2+7)
+	if !o2.out.sent && !o2.missed {
+		s.Violate("run-aborted", fmt.Sprintf("degenerate but legal input %s: the follow-up connection from %s:%d delivered nothing (err=%v psync=%v reply=%s readerErr=%v)", tag, next.RunId, next.Offset, o2.runErr, o2.psyncs, o2.reply, o2.proxy.rdErr), rp)
+		return
+	}
+	if n2 := h.gcJudge(o2, "follow-up connection", next, id, w, g, m2, m2+7, rp); n2.RunId != "!" {
+		h.gcReadBack(ch, id, w, g, "after the follow-up connection", rp)
+	}
+}
+
+
+// twoDirs (dimension audit): a DISK store that holds the directories of TWO run ids - the previous id A (log [100,150) of
+// A's history, left by an earlier process) and the current id B (log [100,160) of B's, which shares A's bytes below the
+// switch offset 130). The source reports (B, A); the target's position is still labelled A, inside the shared prefix.
+// channel.StartPoint must pick B's directory, the reader must read B's files: the log delivered from 120 is B's history.
+func (h *vf6AttH) twoDirs(crc bool, stored int64, seed uint64) {
+	s := h.sink
+	oldCrc := config.GetSyncerConfig().Channel.VerifyCrc
+	config.GetSyncerConfig().Channel.VerifyCrc = crc
+	defer func() { config.GetSyncerConfig().Channel.VerifyCrc = oldCrc }()
+	r := vfutil.NewRand(seed)
+	A, B := vf6HexId(r), vf6HexId(r)
+	w := &vf6World{id1: B, id2: A, switchOff: 130, sb: seed%9973 + 1, s1: seed%99991 + 7, s2: seed%99989 + 11, so: 3}
+	h.nCase++
+	dir := filepath.Join(h.tmp, fmt.Sprintf("two%d", h.nCase))
+	os.MkdirAll(dir, 0o777)
+	defer os.RemoveAll(dir)
+	write := func(id string, from, to int64) bool {
+		ch := NewStoreChannel(StorerConf{InputId: "vf", Dir: dir, MaxSize: -1, LogSize: 1 << 20})
+		defer ch.Close()
+		if err := ch.SetRunId(id); err != nil {
+			return false
+		}
+		aw, err := ch.NewAofWritter(bytes.NewReader(w.histRange(id, from, to)), from)
+		if err != nil {
+			return false
+		}
+		aw.Start()
+		aw.Wait(context.Background())
+		aw.Close()
+		return aw.Right() == to
+	}
+	if !write(A, 100, 150) || !write(B, 100, 160) {
+		s.Count("twodirs_populate_failed")
+		return
+	}
+	dirs, _ := filepath.Glob(filepath.Join(dir, "*"))
+	if len(dirs) != 2 {
+		s.Count(fmt.Sprintf("twodirs_store_holds_%d_directories", len(dirs)))
+		return
+	}
+	ch := NewStoreChannel(StorerConf{InputId: "vf", Dir: dir, MaxSize: -1, LogSize: 1 << 20})
+	defer ch.Close()
+	sp := StartPoint{RunId: A, Offset: stored}
+	src := &vf6Source{id1: B, id2: A, switchOff: 130, backlog: true, first: 1, blen: 160, master: 160, snapLen: 5, capaId: true, k: 14, w: w}
+	o := h.gcConnect(ch, func(p *vf6Chan) Channel { return p }, sp, src, 174)
+	state := fmt.Sprintf("disk store with the directories of A (log [100,150)) and of B (log [100,160)); source (B, A) switch offset 130; stored A:%d; verifyCrc=%v; psync=%v reply=%s sps=%v valid=%v dels=%v sets=%v writers=%v readers=%v sent=%v kind=%s left=%d got=%d readErr=%q err=%v",
+		stored, crc, o.psyncs, o.reply, o.proxy.sp, o.proxy.valid, o.proxy.dels, o.proxy.sets, o.proxy.wr, o.proxy.rd, o.out.sent, o.out.kind, o.out.left, len(o.out.got), o.out.readErr, o.runErr != nil)
+	rp := map[string]interface{}{"scenario": state}
+	s.Count(fmt.Sprintf("cfg_cache_two_run_id_directories_crc%v", crc))
+	if o.missed {
+		s.Count("gcp_wait_limit")
+		return
+	}
+	if !o.out.sent {
+		s.Violate("run-aborted", "two run-id directories: nothing was delivered: "+state, rp)
+		return
+	}
+	if o.out.kind == "aof" {
+		if o.out.left != stored {
+			s.Violate("continue-later-start", "two run-id directories: "+state, rp)
+		} else if o.out.readErr != "" || !bytes.Equal(o.out.got, w.histRange(B, stored, 174)) {
+			s.Violate("stream-bytes", "two run-id directories: the log delivered is not the current history's: "+state, rp)
+		} else {
+			s.Count("twodirs_stream_of_current_history")
+		}
+	} else {
+		s.Count("twodirs_snapshot")
+	}
+}
+
 func vf6GcId(seed uint64) string {
 	r := vfutil.NewRand(seed ^ 0x9c06)
 	return vf6HexId(r)
@@ -480,6 +669,10 @@ func (h *vf6AttH) gcPoint(g *vf6GcCase) {
 	dir := filepath.Join(h.tmp, fmt.Sprintf("gp%d", h.nCase))
 	os.MkdirAll(dir, 0o777)
 	defer os.RemoveAll(dir)
+	oldCrc := config.GetSyncerConfig().Channel.VerifyCrc
+	config.GetSyncerConfig().Channel.VerifyCrc = g.pt%2 == 1 // dimension audit: verifyCrc on at the odd points
+	defer func() { config.GetSyncerConfig().Channel.VerifyCrc = oldCrc }()
+	s.Count(fmt.Sprintf("cfg_verifyCrc_%v_d", g.pt%2 == 1))
 	ch := NewStoreChannel(StorerConf{InputId: "vf", Dir: dir, MaxSize: g.maxSize(), LogSize: g.logSize})
 	defer ch.Close()
 	sc := ch.(*StoreChannel)
@@ -645,7 +838,7 @@ func TestVerifC06Gc(t *testing.T) {
 		t.Fatal(err)
 	}
 	defer ln.ln.Close()
-	yml := fmt.Sprintf("input:\n  redis:\n    addresses: [\"%s\"]\noutput:\n  redis:\n    addresses: [\"127.0.0.1:1\"]\nchannel:\n  storer:\n    dirPath: %s\nlog:\n  level: panic\n",
+	yml := fmt.Sprintf("input:\n  rdbParallel: 1\n  redis:\n    addresses: [\"%s\"]\noutput:\n  redis:\n    addresses: [\"127.0.0.1:1\"]\nchannel:\n  storer:\n    dirPath: %s\nlog:\n  level: panic\n",
 		ln.ln.Addr().String(), filepath.Join(tmp, "cfgdir"))
 	yp := filepath.Join(tmp, "cfg.yaml")
 	if err := os.WriteFile(yp, []byte(yml), 0o644); err != nil {
@@ -656,7 +849,8 @@ func TestVerifC06Gc(t *testing.T) {
 	}
 	log.InitLog(*config.GetSyncerConfig().Log)
 	inCfg := *config.GetSyncerConfig().Input.Redis
-	h := &vf6AttH{vf6H: &vf6H{t: t, s: s, ln: ln, tmp: tmp, inCfg: inCfg}}
+	h := &vf6AttH{vf6H: &vf6H{t: t, s: s, ln: ln, tmp: tmp, inCfg: inCfg, seq: true}}
+	s.Count(fmt.Sprintf("cfg_rdbParallel_%d", cap(config.GetSyncerConfig().Input.RdbLimiter())))
 	h.patience.Store(10000)
 
 	run := func(g *vf6GcCase, tag string) {
@@ -697,6 +891,35 @@ func TestVerifC06Gc(t *testing.T) {
 		h.begin(0)
 		h.crcLoop(which, uint64(r.Range(1, 1<<30)))
 		h.sink.commit(h.vf6H)
+	}
+	for _, d := range vf6DegCases() {
+		for _, be := range []struct {
+			b   string
+			crc bool
+		}{{"m", false}, {"d", false}, {"d", true}} {
+			seed := uint64(r.Range(1, 1<<30))
+			for attempt := 0; ; attempt++ {
+				h.begin(attempt)
+				h.degCase(d, be.b, be.crc, seed)
+				if h.sinkStalled() && attempt < 1 {
+					continue
+				}
+				h.sink.commit(h.vf6H)
+				break
+			}
+		}
+	}
+	for _, crc := range []bool{false, true} {
+		seed := uint64(r.Range(1, 1<<30))
+		for attempt := 0; ; attempt++ {
+			h.begin(attempt)
+			h.twoDirs(crc, 120, seed)
+			if h.sinkStalled() && attempt < 1 {
+				continue
+			}
+			h.sink.commit(h.vf6H)
+			break
+		}
 	}
 	rounds := vfutil.Scale(1, 4)
 	for i := 0; i < rounds; i++ {
